@@ -76,12 +76,13 @@ HsVAuto == <<97,117,116,111>>
 
 \* ---- elements and attributes -----------------------------------------------------------------
 \* i is the HTML element called nm
-HsIs(d, i, nm) == IsEl(d, i) /\ IsHtmlEl(d, i) /\ NameKey(d, d.name[i]) = nm
-HsIsAny(d, i, nms) == IsEl(d, i) /\ IsHtmlEl(d, i) /\ NameKey(d, d.name[i]) \in nms
+\* (the cheap name test first: TLC evaluates conjuncts left to right)
+HsIs(d, i, nm) == IsEl(d, i) /\ NameKey(d, d.name[i]) = nm /\ IsHtmlEl(d, i)
+HsIsAny(d, i, nms) == IsEl(d, i) /\ NameKey(d, d.name[i]) \in nms /\ IsHtmlEl(d, i)
 
-HsHas(d, i, a) == AttrValSetCI(d, i, a) # {}
+HsHas(d, i, a) == \E n \in 1..Len(d.attrs[i]) : Lower(d.attrs[i][n].k) = a       \* AttrValSetCI(d, i, a) # {}
 \* value of a content attribute, the empty string when it is absent
-HsVal(d, i, a) == IF HsHas(d, i, a) THEN CHOOSE v \in AttrValSetCI(d, i, a) : TRUE ELSE <<>>
+HsVal(d, i, a) == LET vs == AttrValSetCI(d, i, a) IN IF vs = {} THEN <<>> ELSE CHOOSE v \in vs : TRUE
 \* keyword of an enumerated attribute
 HsKw(d, i, a) == Lower(HsVal(d, i, a))
 
@@ -109,23 +110,36 @@ HsChecked(d, i) ==
 
 \* "button or input of type submit"
 HsIsSubmit(d, i) == HsIsAny(d, i, {HsNInput, HsNButton}) /\ HsHas(d, i, HsAType) /\ HsKw(d, i, HsAType) = HsVSubmit
-\* the submit buttons whose form owner is f, and the default button of f: the first in tree order
+\* "The first button or input of type submit in each form".  Three readings of "first .. in each
+\* form", which designate the same elements on every document in which no form is nested in another
+\* one (T-Default); nested forms are non-conforming content that an HTML5 parser never builds, but
+\* html.parser, lxml and the bs4 API do.
+\*   owner    the HTML standard's wording for a form's default button: the first submit button in
+\*            tree order whose form owner (nearest form ancestor) is that form
+\*   literal  the first submit button among all the descendants of each form, nested forms included
+\*   bail     the first submit button of its form owner PROVIDED no nested form starts before it
+\*            inside that form: a form that meets a nested form has no default button from there on.
+\*            This is the rule the library documents for nested forms (its test-suite:
+\*            tests/test_level4/test_default.py, test_nested_form / test_nested_form_fail, "bail
+\*            like browsers do"); it only ever removes elements from the owner reading.
+\* The property text does not decide between them.  StateHolds uses the documented rule (bail);
+\* a selector record [k |-> "default", alt |-> TRUE] asks for the owner reading, which conformance
+\* checks use only to record where the two differ (drift), never to gate.
 HsSubmitsOf(d, f) == {j \in Elems(d) : HsIsSubmit(d, j) /\ HsFormOwner(d, j) = f}
+HsDefaultButtonOwner(d, i) ==
+    /\ HsIsSubmit(d, i)
+    /\ LET f == HsFormOwner(d, i) IN
+         f # 0 /\ \A j \in Elems(d) : (j < i /\ HsIsSubmit(d, j)) => HsFormOwner(d, j) # f      \* i = Min(HsSubmitsOf(d, f))
 HsDefaultButton(d, i) ==
     /\ HsIsSubmit(d, i)
-    /\ HsFormOwner(d, i) # 0
-    /\ i = Min(HsSubmitsOf(d, HsFormOwner(d, i)))
-HsDefault(d, i) == HsChecked(d, i) \/ HsDefaultButton(d, i)
-
-\* The literal reading of "the first submit button in each form": first among all the descendants
-\* of a form in its document, nested forms included.  T-Default below states where the two readings
-\* coincide (everywhere except under nested forms).  A selector record [k |-> "default", alt |-> TRUE]
-\* asks for this reading; conformance checks use it only to label a disagreement, never to gate.
+    /\ LET f == HsFormOwner(d, i) IN
+         f # 0 /\ \A j \in Elems(d) : (j < i /\ f \in HsAnc(d, j)) => ~(HsIsSubmit(d, j) \/ HsIs(d, j, HsNForm))
 HsSubmitsIn(d, f) == {j \in Elems(d) : HsIsSubmit(d, j) /\ f \in HsAnc(d, j)}
 HsDefaultButtonLit(d, i) ==
     HsIsSubmit(d, i) /\ \E f \in HsFormAnc(d, i) : i = Min(HsSubmitsIn(d, f))
 HsNestedForms(d) == \E f \in Elems(d) : HsIs(d, f, HsNForm) /\ HsFormAnc(d, f) # {}
-HsDefaultLit(d, i) == HsChecked(d, i) \/ HsDefaultButtonLit(d, i)
+HsDefault(d, i) == HsChecked(d, i) \/ HsDefaultButton(d, i)
+HsDefaultOwner(d, i) == HsChecked(d, i) \/ HsDefaultButtonOwner(d, i)
 HsAlt(s) == "alt" \in DOMAIN s /\ s.alt
 
 \* ---- :indeterminate ---------------------------------------------------------------------------
@@ -209,31 +223,51 @@ HsDirState(d, i) == LET v == HsKw(d, i, HsADir) IN
     IF ~HsHas(d, i, HsADir) THEN "none"
     ELSE IF v = HsVLtr THEN "ltr" ELSE IF v = HsVRtl THEN "rtl" ELSE IF v = HsVAuto THEN "auto" ELSE "none"
 
+\* Two readings.  lib = FALSE is the HTML standard's algorithm.  lib = TRUE is a coarser reading
+\* that the property text does not exclude and that conformance checks accept as well, recording
+\* that the code follows it (selector record [k |-> "dir", d |-> .., alt |-> TRUE]):
+\*   (a) the top element of a document that has no dir attribute state is ltr even when it is a bdi;
+\*   (b) only inputs with an explicit type keyword text / search / tel / url / email take dir=auto
+\*       from their value (the standard also counts a missing or empty type attribute);
+\*   (c) elements outside the HTML namespace have no direction, pass none on to their children and
+\*       their text does not count for an ancestor with dir=auto.
+\* The readings coincide on every document without a top-level bdi, without a type-less
+\* input[dir=auto] and without foreign elements (T-DirReadings).
+
 \* elements whose text does not count for an ancestor with dir=auto
-HsBidiCut(d, a) == \/ HsIsAny(d, a, {HsNBdi, HsNScript, HsNStyle, HsNTextarea, HsNIframe})
-                   \/ HsDirState(d, a) # "none"
-HsAutoText(d, i) ==
-    HsCat(d, {j \in Desc(d, i) : IsText(d, j) /\ \A a \in Anc(d, j) : (i \in Anc(d, a)) => ~HsBidiCut(d, a)})
+HsBidiCut(d, a, lib) == \/ HsIsAny(d, a, {HsNBdi, HsNScript, HsNStyle, HsNTextarea, HsNIframe})
+                        \/ HsDirState(d, a) # "none"
+                        \/ lib /\ ~IsHtmlEl(d, a)
+HsAutoText(d, i, lib) ==
+    HsCat(d, {j \in Desc(d, i) : IsText(d, j) /\ \A a \in Anc(d, j) : (i \in Anc(d, a)) => ~HsBidiCut(d, a, lib)})
 \* controls whose dir=auto looks at the value: textarea, and input in the Text (also: no or empty
 \* type attribute), Search, Telephone, URL or Email state
-HsAutoFromValue(d, i) == \/ HsIs(d, i, HsNTextarea)
-                         \/ HsIs(d, i, HsNInput) /\ HsKw(d, i, HsAType) \in {<<>>, HsVText, HsVSearch, HsVTel, HsVUrl, HsVEmail}
+HsAutoTypes(lib) == {HsVText, HsVSearch, HsVTel, HsVUrl, HsVEmail} \cup (IF lib THEN {} ELSE {<<>>})
+HsAutoFromValue(d, i, lib) == \/ HsIs(d, i, HsNTextarea)
+                              \/ HsIs(d, i, HsNInput) /\ (lib => HsHas(d, i, HsAType)) /\ HsKw(d, i, HsAType) \in HsAutoTypes(lib)
 HsValueOf(d, i) == IF HsIs(d, i, HsNTextarea) THEN HsCat(d, {j \in Children(d, i) : IsText(d, j)})
                    ELSE HsVal(d, i, HsAValue)
 
-RECURSIVE HsDir(_, _)
-HsDir(d, i) ==
+\* directionality of element i: "ltr", "rtl" ("none" only under reading (c))
+RECURSIVE HsDirR(_, _, _)
+HsDirR(d, i, lib) ==
     LET st == HsDirState(d, i)
-        inherit == IF HsIsDocTop(d, i) THEN "ltr" ELSE HsDir(d, d.parent[i])
+        inherit == IF HsIsDocTop(d, i) THEN "ltr"
+                   ELSE IF lib /\ ~IsHtmlEl(d, d.parent[i]) THEN "none"
+                   ELSE HsDirR(d, d.parent[i], lib)
         val == HsValueOf(d, i)
-    IN IF st \in {"ltr", "rtl"} THEN st
-       ELSE IF st = "auto" /\ HsAutoFromValue(d, i)
+        txt == HsAutoText(d, i, lib)
+    IN IF lib /\ ~IsHtmlEl(d, i) THEN "none"
+       ELSE IF st \in {"ltr", "rtl"} THEN st
+       ELSE IF lib /\ st = "none" /\ HsIsDocTop(d, i) THEN "ltr"
+       ELSE IF st = "auto" /\ HsAutoFromValue(d, i, lib)
             THEN IF HsFirstStrong(val) # "none" THEN HsFirstStrong(val)
                  ELSE IF val # <<>> THEN "ltr" ELSE inherit
        ELSE IF st = "auto" \/ HsIs(d, i, HsNBdi)
-            THEN IF HsFirstStrong(HsAutoText(d, i)) # "none" THEN HsFirstStrong(HsAutoText(d, i)) ELSE inherit
+            THEN IF HsFirstStrong(txt) # "none" THEN HsFirstStrong(txt) ELSE inherit
        ELSE IF HsIsInputOf(d, i, {HsVTel}) THEN "ltr"
        ELSE inherit
+HsDir(d, i) == HsDirR(d, i, FALSE)
 
 \* ---- :defined ---------------------------------------------------------------------------------
 \* custom element names contain a hyphen; an element that carries a prefix is not an HTML custom
@@ -248,9 +282,9 @@ HsKinds == {"checked", "default", "indeterminate", "enabled", "disabled", "requi
 StateHolds(d, s, i) ==
     IF s.k = "defined" THEN IsEl(d, i) /\ IsHtml(d) /\ HsDefined(d, i)
     ELSE IF s.k \notin HsKinds THEN FALSE
-    ELSE /\ IsEl(d, i) /\ IsHtml(d) /\ IsHtmlEl(d, i)
+    ELSE /\ IsEl(d, i) /\ IsHtml(d)
          /\ CASE s.k = "checked" -> HsChecked(d, i)
-              [] s.k = "default" -> IF HsAlt(s) THEN HsDefaultLit(d, i) ELSE HsDefault(d, i)
+              [] s.k = "default" -> IF HsAlt(s) THEN HsDefaultOwner(d, i) ELSE HsDefault(d, i)
               [] s.k = "indeterminate" -> HsIndeterminate(d, i)
               [] s.k = "enabled" -> HsEnabled(d, i)
               [] s.k = "disabled" -> HsDisabled(d, i)
@@ -260,7 +294,8 @@ StateHolds(d, s, i) ==
               [] s.k = "read-only" -> HsReadOnly(d, i)
               [] s.k = "placeholder-shown" -> HsPlaceholderShown(d, i)
               [] s.k \in {"link", "any-link"} -> HsLink(d, i)
-              [] s.k = "dir" -> HsDir(d, i) = s.d
+              [] s.k = "dir" -> HsDirR(d, i, HsAlt(s)) = s.d
+         /\ IsHtmlEl(d, i)
 
 \* the set a pseudo-class designates in document d
 HsSet(d, s) == {i \in Elems(d) : StateHolds(d, s, i)}
@@ -292,15 +327,25 @@ HsThPartitions(d) ==
     /\ HsThEnabledDisabled(d) /\ HsThRequiredOptional(d) /\ HsThReadWriteOnly(d)
     /\ HsThLink(d) /\ HsThCheckedDefault(d) /\ HsThDir(d)
 
-\* T-Default: a form has at most one default button, it is owned by that form, and where no form
-\* is nested in another one the form-owner reading and the literal "first among the descendants"
-\* reading designate the same elements
+\* T-DirReadings: the two readings of :dir() differ only below a bdi that is the top of its document,
+\* a type-less input[dir=auto], or a foreign element
+HsDirUndecided(d) ==
+    \/ \E i \in Elems(d) : HsIs(d, i, HsNBdi) /\ HsIsDocTop(d, i) /\ HsDirState(d, i) = "none"
+    \/ \E i \in Elems(d) : HsIs(d, i, HsNInput) /\ HsDirState(d, i) = "auto" /\ HsKw(d, i, HsAType) = <<>>
+    \/ \E i \in Elems(d) : ~IsHtmlEl(d, i)
+HsThDirReadings(d) == ~HsDirUndecided(d) => \A i \in Elems(d) : HsDirR(d, i, TRUE) = HsDirR(d, i, FALSE)
+
+\* T-Default: a form has at most one default button and it is owned by that form; the documented
+\* rule only removes elements from the owner reading; where no form is nested in another one the
+\* three readings designate the same elements; under the owner reading every form that owns a
+\* submit button has exactly one default button
 HsThDefault(d) ==
-    /\ \A i \in Elems(d) : \A j \in Elems(d) :
-          (HsDefaultButton(d, i) /\ HsDefaultButton(d, j) /\ HsFormOwner(d, i) = HsFormOwner(d, j)) => i = j
+    /\ \A f \in Elems(d) : HsIs(d, f, HsNForm) => Cardinality({i \in HsSubmitsOf(d, f) : HsDefaultButton(d, i)}) <= 1
+    /\ \A i \in Elems(d) : HsDefaultButton(d, i) => (HsFormOwner(d, i) # 0 /\ HsDefaultButtonOwner(d, i))
     /\ \A f \in Elems(d) : (HsIs(d, f, HsNForm) /\ HsSubmitsOf(d, f) # {}) =>
-          \E i \in HsSubmitsOf(d, f) : HsDefaultButton(d, i)
-    /\ ~HsNestedForms(d) => \A i \in Elems(d) : HsDefaultButton(d, i) = HsDefaultButtonLit(d, i)
+          {i \in HsSubmitsOf(d, f) : HsDefaultButtonOwner(d, i)} = {Min(HsSubmitsOf(d, f))}
+    /\ ~HsNestedForms(d) => \A i \in Elems(d) : /\ HsDefaultButton(d, i) = HsDefaultButtonOwner(d, i)
+                                                   /\ HsDefaultButton(d, i) = HsDefaultButtonLit(d, i)
 
 \* T-Group: the unchecked named radio buttons of one group are indeterminate together, a group
 \* never leaves its document, and a group with a checked member has no indeterminate member
